@@ -40,7 +40,7 @@ Print Assumptions descendants_are_global_tiles.
 Theorem subsample_hash_image :
   forall k ul ur lr ll inc i j,
   hash (subsample Mid k ul ur lr ll inc i j) = subsample hmid k (hash ul) (hash ur) (hash lr) (hash ll) inc i j.
-Proof. exact (hom_subsample pt N Mid hmid hash (fun a b => eq_refl)). Qed.
+Proof. exact (hom_subsample pt int Mid hmid hash (fun a b => eq_refl)). Qed.
 Print Assumptions subsample_hash_image.
 
 Example pixel_grid_nonvacuous :
